@@ -4,7 +4,7 @@ From TS Require Import Model.Str Model.Outcome Model.Unicode Model.Types Model.P
                        Model.Lang.TypeScript Model.Lang.Kotlin Model.Lang.Scala Model.Lang.Go Spec.C09Spec.
 From TS Require Import Model.Lang.Swift Model.Lang.Python.
 From TS Require Proofs.C09Common Proofs.C09Recon Proofs.C09Refs Proofs.C09_KotlinFile Proofs.C09Witness Proofs.C09Final.
-From TS Require Proofs.C09_TypeScript.
+From TS Require Proofs.C09_TypeScript Proofs.C09_Scala.
 Import ListNotations.
 
 (* the program the back ends receive in single-file mode is Proofs.C09Recon.c09_reconciled of the parsed one *)
@@ -87,6 +87,28 @@ Theorem C09_no_rename_TypeScript :
       good_C09 TypeScript [] pd (c09_observe TypeScript fd) = true.
 Proof. exact Proofs.C09Final.c09_no_rename_typescript. Qed.
 Print Assumptions C09_no_rename_TypeScript.
+
+(* Scala (no prefix; no topsort; consts are never written), every program, package and type-mapping
+   configuration: outside the recorded classes every name spelled in a type position (case-class
+   parameter types, variant payloads, alias targets, the name after `extends`, the ...Inner helper class
+   and its type arguments) is a generic parameter of the item it stands in or exactly the name a
+   generated definition is declared under *)
+Theorem C09_Scala :
+  forall (uc : unicode) (cfg : sc_config) (acrs : list str) (pd : parsed),
+    dom_C09 Scala [] pd = true -> known_C09 Scala [] acrs pd = None ->
+    forall fd : file_decls, sc_file_decls uc cfg (Proofs.C09Recon.c09_reconciled pd) = Ok fd ->
+      good_C09 Scala [] pd (c09_observe Scala fd) = true.
+Proof. exact Proofs.C09_Scala.c09_scala_all. Qed.
+Print Assumptions C09_Scala.
+
+Theorem C09_no_rename_Scala :
+  forall (uc : unicode) (cfg : sc_config) (pd : parsed),
+    dom_C09 Scala [] pd = true ->
+    (forall e, In e (c09_entities pd) -> c09_renamed_away (c9e_id e) = false) ->
+    forall fd : file_decls, sc_file_decls uc cfg (Proofs.C09Recon.c09_reconciled pd) = Ok fd ->
+      good_C09 Scala [] pd (c09_observe Scala fd) = true.
+Proof. exact Proofs.C09Final.c09_no_rename_scala. Qed.
+Print Assumptions C09_no_rename_Scala.
 
 (* nothing renamed => no recorded class applies, all languages (with an empty Go acronym list) *)
 Theorem C09_no_rename_no_class :
